@@ -26,6 +26,16 @@ func ruleAppTypeDefault(c *Ctx, rule string) {
 			continue
 		}
 		v := callArgs(ks[0])[0]
+		host := fn
+		if ks[0].Parent() != fn {
+			// the key is built in a helper from a parameter (struct): look at what the caller passes
+			if w := throughStructParam(v); w != nil {
+				v = w
+			} else if w := throughParams(v); w != v {
+				v = w
+			}
+		}
+		_ = host
 		ph, isPhi := v.(*ssa.Phi)
 		okDef, okConv := false, false
 		if isPhi {
